@@ -337,6 +337,12 @@ func Issue(c *Cert, parent *x509.Certificate, parentKey *Key) (*x509.Certificate
 	if par == nil {
 		par = tmpl
 		signKey = c.Key
+		if c.AKI != nil && !c.EKUFirst {
+			// a self-issued certificate carries the authority key identifier its
+			// template names (crypto/x509 writes it as given): an identifier unlike
+			// its own subject key identifier is an unauthenticated hint, no more
+			tmpl.AuthorityKeyId = c.AKI
+		}
 	}
 	if c.SubjectDER != nil {
 		tmpl.RawSubject = c.SubjectDER
